@@ -63,7 +63,7 @@ static Case case_from_plan(const Plan &p) {
 }
 
 // ---- calling the library -----------------------------------------------------------------------
-struct Call { const Case *c; Out *o; int nthreads; bool noise; const Mat *Yover; };
+struct Call { const Case *c; Out *o; int nthreads; bool noise; const Mat *Yover; bool prior = false; };
 
 static void *noise_client(void *a) {
   const Case *c = (const Case *)a;
@@ -95,6 +95,17 @@ static void *split_worker(void *a_) {
 static void call_routine(void *arg) {
   Call &k = *(Call *)arg;
   const Case &c = *k.c; Out &o = *k.o;
+  if (k.prior) {
+    // "whatever came before": an earlier, different call of the same routine in this process (other responses, other seed,
+    // other iteration count) must leave nothing behind that changes the call under test
+    Case c2 = c; Out scratch;
+    for (auto &r : c2.Y) for (double &v : r) v = (c.learner == L_LDA) ? v : v * 1.5 + 1.0;
+    c2.gen_seed = c.gen_seed + 101;
+    if (c.routine == R_BOOT) c2.iters = (c.iters == k.nthreads * 2) ? k.nthreads * 3 : k.nthreads * 2;
+    else if (c.routine != R_SPLIT_CONC) c2.iters = c.iters + 1;
+    Call k2{&c2, &scratch, k.nthreads, false, nullptr, false};
+    call_routine(&k2);
+  }
   int nh = -1;
   if (k.noise) nh = sim_spawn(noise_client, (void *)&c);
   matrix *x = to_matrix(c.X), *y = to_matrix(k.Yover ? *k.Yover : c.Y);
@@ -258,6 +269,7 @@ struct HCv : Harness {
     if (routine == R_PCARANK) nth = (int)p.geti("machine.nproc");
     p.seti("groups", groups); p.seti("iterations", iters); p.seti("nthreads", nth);
     p.seti("noise", c06 && wr.chance(0.35) ? 1 : 0);
+    p.seti("prior_call", c06 && routine != R_YSCR_BOOT && wr.chance(0.3) ? 1 : 0);
     p.setu("gen_seed", 1 + wr.below(1000000));
     p.setd("testsize", wr.chance(0.2) ? 1.5 : wr.uniform(0.05, 0.6));
     p.setu("data.seed", wr.next() >> 4);
@@ -288,13 +300,13 @@ struct HCv : Harness {
   // ------------------------------------------------------------------------------------------
   struct RunRes { int rc; sim_result sr; int unjoined; std::string race_cls, race_txt, switches; };
 
-  RunRes run_once(const Plan &p, const Case &c, Out &o, int strategy_override, int nthreads, int nproc, bool noise, long long clock_shift, const Mat *Yover = nullptr) {
+  RunRes run_once(const Plan &p, const Case &c, Out &o, int strategy_override, int nthreads, int nproc, bool noise, long long clock_shift, const Mat *Yover = nullptr, bool prior = false) {
     sim_cfg sc; std::vector<sim_switch> rs;
     cfg_from_plan(p, sc, rs);
     if (strategy_override >= 0) { sc.strategy = strategy_override; sc.replay = nullptr; sc.n_replay = 0; }
     sc.nproc = nproc; sc.clock0 += clock_shift; sc.step_limit = STEP_CEILING;
     sim_begin_run(&sc);
-    Call k{&c, &o, nthreads, noise, Yover};
+    Call k{&c, &o, nthreads, noise, Yover, prior};
     RunRes r;
     r.rc = sim_guard(call_routine, &k);
     r.unjoined = sim_unjoined();
@@ -323,8 +335,9 @@ struct HCv : Harness {
     // C: requested thread count, canonical schedule, no noise (also the profiling pass for S4)
     RunRes rc = run_once(p, c, C, SIM_S0_SEQUENTIAL, c.nthreads, c.nproc, false, 1000);
     // B: requested thread count under the plan's schedule, with the noise client
-    RunRes rb = run_once(p, c, B, -1, c.nthreads, c.nproc, c.noise != 0, 777777);
+    RunRes rb = run_once(p, c, B, -1, c.nthreads, c.nproc, c.noise != 0, 777777, nullptr, p.geti("prior_call", 0) != 0);
     for (RunRes *r : {&ra, &rc, &rb}) fill_outcome_from_sim(o, r->sr, plan_strategy);
+    if (p.geti("prior_call", 0)) o.counters["probe.prior_call_of_same_routine"]++;
     o.sched_sig = rb.sr.sched_sig;
     o.nontrivial = rb.sr.max_live >= 3 || rc.sr.max_live >= 3;
     o.counters["threads." + std::to_string(c.nthreads)]++;
@@ -337,7 +350,7 @@ struct HCv : Harness {
     std::string w;
     if (ra.unjoined || rc.unjoined || rb.unjoined) o.fail("unjoined-thread", std::string(routine_name[c.routine]) + ": a worker was not joined before the results were returned");
     for (RunRes *r : {&rc, &rb, &ra}) if (!r->race_cls.empty()) { o.fail(r->race_cls, std::string(routine_name[c.routine]) + ": unsynchronised shared state: " + r->race_txt); break; }
-    if (!outs_equal_bits(B, C, &w)) o.fail("schedule-divergence", std::string(routine_name[c.routine]) + ": same inputs and thread count, different schedule/clock/concurrent caller => different result: " + w);
+    if (!outs_equal_bits(B, C, &w)) o.fail("schedule-divergence", std::string(routine_name[c.routine]) + ": same inputs and thread count, different schedule / clock / concurrent caller / earlier call => different result: " + w);
     if (!outs_close(C, A, &w)) o.fail("thread-count-divergence", std::string(routine_name[c.routine]) + ": " + std::to_string(c.nthreads) + " threads differ from the sequential run: " + w);
     if (!has_nan(A.pred) && !has_nan(A.aux) && (has_nan(B.pred) || has_nan(B.aux) || has_nan(C.pred))) o.fail("nan", std::string(routine_name[c.routine]) + ": NaN appears only in the multithreaded run");
     if (o.violation && !p.has("sched.switches")) o.switch_list = rb.switches;
@@ -614,6 +627,7 @@ struct HCv : Harness {
     std::vector<Plan> out;
     auto with = [&](const char *k, long long v) { Plan q = p; q.seti(k, v); out.push_back(q); };
     if (p.geti("noise")) with("noise", 0);
+    if (p.geti("prior_call")) with("prior_call", 0);
     if (p.geti("sched.strategy") != 0 && !p.has("sched.switches")) with("sched.strategy", 0);
     long long it = p.geti("iterations"), th = p.geti("nthreads"), n = p.geti("objects"), px = p.geti("xcols"), ny = p.geti("ycols"), g = p.geti("groups"), nlv = p.geti("nlv");
     if (p.geti("routine") == R_BOOT) {
